@@ -329,6 +329,8 @@ def gen_spec(r, P):
         S["detector"] = "StateDigraph"
         S["plan"] = [["deadlock"]]
     S["cap"] = P["stepcap"]
+    if P.get("_meta"):
+        S["_meta"] = True
     if P.get("f_bad") and r.random() < P["f_bad"]:
         S["_f_bad"] = True
     if P.get("f_bigclock") and F("f_bigclock"):
